@@ -40,6 +40,8 @@ var preludeKinds = []struct{ name, src string }{
 	// literals and shorthand notations that occur again in the fault further down
 	{"nil-true-false-literals", "{{ nil }}{{ true ? nil : false }}\n{{ x7 = nil }}\n"},
 	{"shorthand-object-properties", "{{ s1 = 1 }}{{ {s1,\n s1}.s1 }}\n"},
+	// a @dump whose argument fails shows the fault and lets the render go on
+	{"dump-of-a-failing-expression", "@dump(missing9.prop)\n@dump(1 / 0, nope9)\n"},
 }
 
 type faultKind struct {
@@ -101,6 +103,11 @@ var lineFaults = []faultKind{
 	{"undefined-identifier-shorthand-property-later-line", "{{ {a: 1,\n nope,\n b: 2} }}", true, 1},
 	{"stray-token-after-last-slot", "@component(\"c\")\n@slot\ns\n@end\n{{ 1 }}@end", false, 4},
 	{"stray-directive-after-last-slot", "@component(\"c\")@slot(\"a\")s@end\n\n@if(true)x@end@end", false, 2},
+	// structural faults whose offending token stands on a later line than the token before it
+	{"elseif-after-else", "@if(true)a@else\nb\n@elseif(true)c@end", false, 2},
+	{"elseif-after-else-same-line", "@if(true)a@else b @elseif(true)c@end", false, 0},
+	{"assignment-without-value", "{{ a9 =\n\n }}", false, 2},
+	{"assignment-without-value-second-statement", "{{ a9 = 1; b9 =\n}}", false, 1},
 	// chains of operators written over several lines: the failing operator's own line counts
 	{"mistyped-operand-at-end-of-chain", "{{ \"a\"\n + \"b\"\n + 1 }}", true, 2},
 	{"division-by-zero-after-group", "{{ (4\n+ 2)\n/ 0 }}", true, 2},
